@@ -28,6 +28,16 @@ static SHARED_MAX: AtomicPtr<AtomicU64> = AtomicPtr::new(std::ptr::null_mut());
 /// lazily, by the system allocator; anything larger aborts deterministically).
 pub const REFUSE_ABOVE: usize = (1 << 32) + (1 << 16);
 
+/// Current refusal threshold. `REFUSE_ABOVE` unless an engine lowers it for a
+/// phase whose aborts it does not judge (C05: running a hostile model), to
+/// protect the host's memory.
+static REFUSE: AtomicUsize = AtomicUsize::new(REFUSE_ABOVE);
+
+#[allow(dead_code)]
+pub fn set_refuse_above(n: usize) {
+    REFUSE.store(n, Ordering::Relaxed);
+}
+
 #[inline]
 fn note(size: usize) -> bool {
     if !ACTIVE.load(Ordering::Relaxed) {
@@ -41,7 +51,7 @@ fn note(size: usize) -> bool {
         // Safety: the pointer refers to a live shared mapping (child.rs).
         unsafe { (*sh).fetch_max(size as u64, Ordering::Relaxed) };
     }
-    size <= REFUSE_ABOVE
+    size <= REFUSE.load(Ordering::Relaxed)
 }
 
 unsafe impl GlobalAlloc for MonAlloc {
